@@ -1,5 +1,6 @@
 SPECIFICATION Spec
-CONSTANTS KMax = 10  Sub = 4  Peaks = {512, 4096, 32768}  Steeps = {1, 2, 6}  Thr = 8  Rule = "step_back"  Relative = FALSE  TailPermille = 10
+CONSTANTS KMax = 10  Sub = 4  Peaks = {4, 64, 512, 4096, 32768}  Steeps = {1, 2, 6}  Thr = 8  Rule = "dense"  Relative = TRUE  TailPermille = 10  Gaps = {0, 5, 6, 7}
 CHECK_DEADLOCK FALSE
 INVARIANT StopRule
 INVARIANT NoTailTruncation
+INVARIANT NothingBeyond
